@@ -216,12 +216,12 @@ def classifyPt (p : PointIn) (prec : String) : String :=
   else if p.tags.any (fun t => reservedKeys.contains t.key) then "reserved-tag-key"
   else if !distinct (p.tags.map (·.key)) then "duplicate-tag-keys"
   else if sortByKey (·.key) p.tags != sortByKey (fun t => escKey t.key) p.tags then "tag-order-escaped"
-  else if !strictlySorted (·.key) p.tags then "unsorted-tags"
   else if p.fields.any (fun f => !fieldKeyPairsOK f.1) then "field-key-backslash-before-special"
   else if p.fields.any (fun f => f.1.head? == some 9 || f.1.head? == some 0) then "field-key-starts-blank"
   else if p.fields.any (fun f => match f.2 with | .str s => s.contains cNL | _ => false) then "newline-in-string"
   else if !timeValid prec p.time then "time"
   else if !p.fields.all (fun f => keyLen p + 4 + escFieldKeyLen f.1 ≤ MaxKeyLength) then "key-length-escaped"
+  else if !strictlySorted (·.key) p.tags then "unsorted-tags"
   else if Valid p prec then "valid" else "other"
 
 def classifyKey (name : Bytes) (tags : List Tag) : String :=
